@@ -405,4 +405,383 @@ theorem readQueue_due {k : Nat} {f : FileDesc} {P : Prop} (ht : f.info.transferr
         | pkt a b c' d => exact ⟨fun p t i b' e => (by rw [← hr.1 a b c' d rfl]; cases e; rfl), fun e => (by cases e)⟩
         | fdt a b c' => exact ⟨fun _ _ _ _ e => (by cases e), fun e => (by cases e)⟩
 
+theorem rrDist_lt (idx j n : Nat) (h1 : idx < n) (h2 : j < n) : rrDist idx j n < n := by
+  unfold rrDist; split <;> omega
+
+theorem readQueues_due {k : Nat} {f : FileDesc} {P : Prop} (ht : f.info.transferring = true) (c : Cur) (j : Nat)
+    (hk : c.key = k) (now : Nat) (hg : gateBlocked f now = false) (hs : c.enc.stopped = false)
+    (hlt : c.enc.sent < f.nPk) (q : QSess) (post : List QSess) (ticks : List (Nat × Nat))
+    (hidx : q.index < q.slots.length) (hjs : q.slots[j]? = some (some c))
+    (hoth : ∀ i c0, i ≠ j → q.slots[i]? = some (some c0) → c0.key ≠ k) :
+    ∀ (pre : List QSess) (s : State), Kept k f P s →
+    (∀ q0 ∈ pre, ∀ cur0 ∈ q0.slots, ∀ c0, cur0 = some c0 → c0.key ≠ k) →
+    (∀ p t i b, (readQueues s (pre ++ q :: post) now ticks).2.2 = Out.pkt p t i b →
+      p ∈ (pre ++ [q]).map (fun x => x.prio)) ∧
+    ((readQueues s (pre ++ q :: post) now ticks).2.2 = Out.none →
+      (readQueues s (pre ++ q :: post) now ticks).1.fdtQueue ≠ []) := by
+  have hj : j < q.slots.length := by
+    rcases Nat.lt_or_ge j q.slots.length with h | h
+    · exact h
+    · rw [List.getElem?_eq_none h] at hjs; cases hjs
+  intro pre
+  induction pre with
+  | nil =>
+    intro s h _
+    simp only [List.nil_append]
+    unfold readQueues
+    have hr := readQueue_due ht c j q.slots.length hk now hg hs hlt hj q.slots.length s q ticks h rfl hidx hjs hoth
+      (rrDist_lt _ _ _ hidx hj)
+    generalize readQueue q.slots.length s q now ticks = r at hr
+    obtain ⟨s', q', out⟩ := r
+    simp only [] at hr ⊢
+    cases out with
+    | none =>
+      simp only []
+      have hp := readQueues_pending post s' now ticks (hr.2 rfl)
+      generalize readQueues s' post now ticks = r2 at hp
+      obtain ⟨s2, rest2, out2⟩ := r2
+      simp only [] at hp ⊢
+      exact ⟨fun p t i b e => (by rw [hp.1] at e; cases e), fun _ => hp.2⟩
+    | hang => exact ⟨fun _ _ _ _ e => (by cases e), fun e => (by cases e)⟩
+    | pkt a b c' d =>
+      exact ⟨fun p t i b' e => (by
+        have := hr.1 a b c' d rfl
+        cases e; simp [this]), fun e => (by cases e)⟩
+    | fdt a b c' => exact ⟨fun _ _ _ _ e => (by cases e), fun e => (by cases e)⟩
+  | cons q0 pre' ih =>
+    intro s h hpre
+    simp only [List.cons_append]
+    unfold readQueues
+    have hr := readQueue_other ht q0.slots.length s q0 now ticks h (hpre q0 List.mem_cons_self)
+    generalize readQueue q0.slots.length s q0 now ticks = r at hr
+    obtain ⟨s', q0', out⟩ := r
+    simp only [] at hr ⊢
+    cases out with
+    | none =>
+      simp only []
+      have h2 := ih s' (hr.2 rfl) (fun q1 hq1 => hpre q1 (List.mem_cons_of_mem _ hq1))
+      generalize readQueues s' (pre' ++ q :: post) now ticks = r2 at h2
+      obtain ⟨s2, rest2, out2⟩ := r2
+      simp only [] at h2 ⊢
+      exact ⟨fun p t i b e => List.mem_cons_of_mem _ (h2.1 p t i b e), h2.2⟩
+    | hang => exact ⟨fun _ _ _ _ e => (by cases e), fun e => (by cases e)⟩
+    | pkt a b c' d =>
+      exact ⟨fun p t i b' e => (by
+        have := hr.1 a b c' d rfl
+        cases e; simp [this]), fun e => (by cases e)⟩
+    | fdt a b c' => exact ⟨fun _ _ _ _ e => (by cases e), fun e => (by cases e)⟩
+
+/-- a pending FDT instance is started and its first packet returned by the FDT session -/
+theorem runFdt_emits_pending {s : State} {L : Held} (fuel now : Nat) (hw : Wf s L) (hs : s.fdtSess = none)
+    (hq : s.fdtQueue ≠ []) : ∃ k id i, (runFdt (fuel + 1) s now).2 = Out.fdt k id i := by
+  unfold runFdt
+  simp only [hs]
+  -- get_next: not busy, nothing to publish, the head of the queue is popped and started
+  have hbusy : fdtBusy s = false := hw.fdtSessNone hs
+  have hmp : fdtMaybePublish s now = s := by
+    unfold fdtMaybePublish currentFdtWillExpire
+    cases hql : s.fdtQueue with
+    | nil => exact absurd hql hq
+    | cons a r => simp
+  have hgn : fdtGetNext s now = fdtAdvance s now := by
+    unfold fdtGetNext
+    rw [hbusy, hmp]; simp
+  rw [hgn]
+  cases hql : s.fdtQueue with
+  | nil => exact absurd hql hq
+  | cons k rest =>
+    obtain ⟨f, hf, hfr⟩ := hw.fdtQueue k (by rw [hql]; simp)
+    have hsh := (hw.fdtKeys f (getF_mem hf)).2
+    have hpop : fdtPop s = { s with curFdt := some k, fdtQueue := rest } := by unfold fdtPop; rw [hql]
+    have hadv : fdtAdvance s now =
+        { fdtStartStep (fdtPop s) k now with fdtSess := some (startFdtCur k) } := by
+      unfold fdtAdvance fdtTryStart
+      rw [hpop]
+      simp only [hf, fresh_should_transfer hsh hfr, if_true]
+    rw [hadv]
+    simp only []
+    have hkey : ∀ g : FileDesc, (transferInit g now 0).key = g.key := fun _ => rfl
+    have hget : getF (fdtStartStep (fdtPop s) k now).fdts k = some (transferInit f now 0) := by
+      show getF (updF (fdtPop s).fdts k _) k = _
+      rw [fdtPop_fdts, getF_updF _ _ _ _ hkey, if_pos rfl, hf]; rfl
+    have hget' : getF (fdtStartStep (fdtPop s) k now).fdts (startFdtCur k).key = some (transferInit f now 0) := hget
+    rw [hget']
+    simp only [gate_of_shape (transferInit_shape hsh now 0), Bool.false_eq_true, if_false]
+    obtain ⟨b, e, he⟩ := encRead_fresh (transferInit f now 0).nSym false false
+    have : (startFdtCur k).enc = { sent := 0, stopped := false, closable := false } := rfl
+    rw [this, he]
+    exact ⟨_, _, _, rfl⟩
+
+/-! ### round-robin indices stay inside their slot lists -/
+
+def IdxOk (qs : List QSess) : Prop := ∀ q ∈ qs, q.index < q.slots.length
+
+theorem readQueue_idx : ∀ k s q now ticks, q.index < q.slots.length →
+    (readQueue k s q now ticks).2.1.index < (readQueue k s q now ticks).2.1.slots.length := by
+  intro k
+  induction k with
+  | zero => intro s q now ticks h; exact h
+  | succ n ih =>
+    intro s q now ticks h
+    unfold readQueue
+    split
+    · exact h
+    · generalize runFile runFuel s q.prio _ now ticks = r
+      obtain ⟨s', cur', out⟩ := r
+      simp only []
+      have hq' : (if q.index + 1 = q.slots.length then 0 else q.index + 1) < (q.slots.set q.index cur').length := by
+        rw [List.length_set]; split <;> omega
+      cases out with
+      | none => exact ih _ _ _ _ hq'
+      | hang => exact hq'
+      | pkt a b c d => exact hq'
+      | fdt a b c => exact hq'
+
+theorem readQueues_idx : ∀ qs s now ticks, IdxOk qs → IdxOk (readQueues s qs now ticks).2.1 := by
+  intro qs
+  induction qs with
+  | nil => intro s now ticks h; exact h
+  | cons q rest ih =>
+    intro s now ticks h
+    unfold readQueues
+    have h1 := readQueue_idx q.slots.length s q now ticks (h q List.mem_cons_self)
+    generalize readQueue q.slots.length s q now ticks = r at h1
+    obtain ⟨s', q', out⟩ := r
+    simp only [] at h1 ⊢
+    have hrest : IdxOk rest := fun q0 hq0 => h q0 (List.mem_cons_of_mem _ hq0)
+    cases out with
+    | none =>
+      simp only []
+      have h2 := ih s' now ticks hrest
+      generalize readQueues s' rest now ticks = r2 at h2
+      obtain ⟨s2, rest2, out2⟩ := r2
+      intro q0 hq0
+      rcases List.mem_cons.mp hq0 with rfl | hq0
+      · exact h1
+      · exact h2 q0 hq0
+    | hang => intro q0 hq0; rcases List.mem_cons.mp hq0 with rfl | hq0; exact h1; exact hrest q0 hq0
+    | pkt a b c d => intro q0 hq0; rcases List.mem_cons.mp hq0 with rfl | hq0; exact h1; exact hrest q0 hq0
+    | fdt a b c => intro q0 hq0; rcases List.mem_cons.mp hq0 with rfl | hq0; exact h1; exact hrest q0 hq0
+
+theorem read_idx (s : State) (now : Nat) (ticks : List (Nat × Nat)) (h : IdxOk s.sessions) :
+    IdxOk (read s now ticks).1.sessions := by
+  unfold read
+  have h1 := runFdt_sessions runFuel (emit s (.opRead now)) now
+  generalize runFdt runFuel (emit s (.opRead now)) now = r at h1
+  obtain ⟨s1, o⟩ := r
+  simp only [emit_sessions] at h1
+  have hs1 : IdxOk s1.sessions := by rw [h1]; exact h
+  cases o with
+  | none =>
+    simp only []
+    unfold readMid
+    have h2 := readQueues_idx s1.sessions { s1 with quiet := true } now ticks hs1
+    generalize readQueues { s1 with quiet := true } s1.sessions now ticks = r2 at h2
+    obtain ⟨s2, qs, o2⟩ := r2
+    simp only [] at h2 ⊢
+    cases o2 with
+    | none => simp only []; rw [readTail_sessions]; exact h2
+    | hang => exact h2
+    | pkt a b c d => exact h2
+    | fdt a b c => exact h2
+  | hang => exact hs1
+  | pkt a b c d => exact hs1
+  | fdt a b c => exact hs1
+
+theorem run_idx (cfg : Cfg) (tbl : List Nat) (ops : List Op) : IdxOk (run (init cfg tbl) ops).sessions := by
+  have step_idx : ∀ (s : State) (op : Op), IdxOk s.sessions → IdxOk (step s op).sessions := by
+    intro s op h
+    cases op with
+    | add a =>
+      have : (addObject s a).1.sessions = s.sessions := by
+        unfold addObject; simp only []; split
+        · rfl
+        · split <;> rfl
+      show IdxOk (addObject s a).1.sessions; rw [this]; exact h
+    | publish now => exact h
+    | remove t =>
+      have : (removeObject s t).1.sessions = s.sessions := by unfold removeObject; split <;> rfl
+      show IdxOk (removeObject s t).1.sessions; rw [this]; exact h
+    | trigger t ts =>
+      have : (triggerTransferAt s t ts).1.sessions = s.sessions := by
+        unfold triggerTransferAt; split
+        · rfl
+        · split <;> rfl
+      show IdxOk (triggerTransferAt s t ts).1.sessions; rw [this]; exact h
+    | read now ticks => exact read_idx s now ticks h
+    | setComplete => exact h
+  have : ∀ (ops : List Op) (s : State), IdxOk s.sessions → IdxOk (run s ops).sessions := by
+    intro ops
+    induction ops with
+    | nil => intro s h; exact h
+    | cons op rest ih => intro s h; exact ih _ (step_idx s op h)
+  apply this
+  intro q hq
+  simp only [init, List.mem_map] at hq
+  obtain ⟨pm, _, rfl⟩ := hq
+  simp only [List.length_replicate]
+  split <;> omega
+
+/-! ### distinct slot contents -/
+
+theorem mem_held_of_slot {pre : List QSess} {q0 : QSess} {c0 : Cur} (hq : q0 ∈ pre) (hc : some c0 ∈ q0.slots) :
+    (q0.prio, c0) ∈ held pre := by
+  unfold held
+  refine List.mem_flatMap.mpr ⟨q0, hq, ?_⟩
+  unfold heldQ heldSlots
+  exact List.mem_flatMap.mpr ⟨some c0, hc, by simp [optHeld]⟩
+
+theorem heldSlots_distinct (p : Nat) : ∀ (l : List (Option Cur)) (i j : Nat) (c0 c : Cur),
+    ((heldSlots p l).map (fun pc => pc.2.key)).Nodup → l[i]? = some (some c0) → l[j]? = some (some c) → i ≠ j →
+    c0.key ≠ c.key := by
+  intro l
+  induction l with
+  | nil => intro i j c0 c _ h; simp at h
+  | cons a r ih =>
+    intro i j c0 c hn hi hj hij
+    have e : heldSlots p (a :: r) = optHeld p a ++ heldSlots p r := by simp [heldSlots]
+    rw [e, List.map_append, List.nodup_append] at hn
+    obtain ⟨_, hn2, hn3⟩ := hn
+    cases i with
+    | zero =>
+      cases j with
+      | zero => exact absurd rfl hij
+      | succ j' =>
+        simp only [List.getElem?_cons_zero, Option.some.injEq] at hi
+        simp only [List.getElem?_cons_succ] at hj
+        subst hi
+        have h1 : c0.key ∈ (optHeld p (some c0)).map (fun pc => pc.2.key) := by simp [optHeld]
+        have h2 : c.key ∈ (heldSlots p r).map (fun pc => pc.2.key) := by
+          refine List.mem_map.mpr ⟨(p, c), ?_, rfl⟩
+          unfold heldSlots
+          exact List.mem_flatMap.mpr ⟨some c, List.mem_of_getElem? hj, by simp [optHeld]⟩
+        exact hn3 _ h1 _ h2
+    | succ i' =>
+      cases j with
+      | zero =>
+        simp only [List.getElem?_cons_zero, Option.some.injEq] at hj
+        simp only [List.getElem?_cons_succ] at hi
+        subst hj
+        have h1 : c.key ∈ (optHeld p (some c)).map (fun pc => pc.2.key) := by simp [optHeld]
+        have h2 : c0.key ∈ (heldSlots p r).map (fun pc => pc.2.key) := by
+          refine List.mem_map.mpr ⟨(p, c0), ?_, rfl⟩
+          unfold heldSlots
+          exact List.mem_flatMap.mpr ⟨some c0, List.mem_of_getElem? hi, by simp [optHeld]⟩
+        exact fun e => hn3 _ h1 _ h2 e.symm
+      | succ j' =>
+        simp only [List.getElem?_cons_succ] at hi hj
+        exact ih i' j' c0 c hn2 hi hj (fun e => hij (by rw [e]))
+
+/-- Strict priority / pacing progress (pre-state form) for every reachable state:
+    if a slot of queue `q` holds a transfer whose next packet is due at `now`, then `read` does not return
+    `None`, and an object packet it returns belongs to `q` or to a queue visited before `q`. -/
+theorem read_due (cfg : Cfg) (tbl : List Nat) (ops : List Op) (pre post : List QSess) (q : QSess) (j : Nat) (c : Cur)
+    (f : FileDesc) (now : Nat) (ticks : List (Nat × Nat))
+    (hsess : (run (init cfg tbl) ops).sessions = pre ++ q :: post)
+    (hjs : q.slots[j]? = some (some c)) (hf : getF (run (init cfg tbl) ops).objs c.key = some f)
+    (hg : gateBlocked f now = false) (hs : c.enc.stopped = false) (hlt : c.enc.sent < f.nPk) :
+    (read (run (init cfg tbl) ops) now ticks).2 ≠ Out.none ∧
+    ∀ p t i b, (read (run (init cfg tbl) ops) now ticks).2 = Out.pkt p t i b →
+      p ∈ (pre ++ [q]).map (fun x => x.prio) := by
+  have hwq := run_inv Wf.closed Wf.closedOps ops (init cfg tbl) (by rw [heldOf_init]; exact Wf.init cfg tbl) rfl
+  have hidx := run_idx cfg tbl ops
+  generalize run (init cfg tbl) ops = s at *
+  obtain ⟨hw, hquiet⟩ := hwq
+  -- facts about the slots from the structural invariant
+  have hheld : heldOf s = held pre ++ (heldQ q ++ held post) := by
+    unfold heldOf; rw [hsess]; simp [held]
+  have hcq : (q.prio, c) ∈ heldQ q := by
+    unfold heldQ heldSlots
+    exact List.mem_flatMap.mpr ⟨some c, List.mem_of_getElem? hjs, by simp [optHeld]⟩
+  have hcin : (q.prio, c) ∈ heldOf s := by rw [hheld]; exact List.mem_append_right _ (List.mem_append_left _ hcq)
+  obtain ⟨f0, hf0, htr, _⟩ := hw.heldObj _ hcin
+  rw [hf] at hf0; cases hf0
+  have hnd := hw.heldNodup
+  rw [hheld, List.map_append, List.nodup_append] at hnd
+  obtain ⟨_, hnd2, hnd3⟩ := hnd
+  have hpre : ∀ q0 ∈ pre, ∀ cur0 ∈ q0.slots, ∀ c0, cur0 = some c0 → c0.key ≠ c.key := by
+    intro q0 hq0 cur0 hcur0 c0 e
+    subst e
+    have h1 : c0.key ∈ (held pre).map (fun pc => pc.2.key) :=
+      List.mem_map.mpr ⟨_, mem_held_of_slot hq0 hcur0, rfl⟩
+    have h2 : c.key ∈ (heldQ q ++ held post).map (fun pc => pc.2.key) :=
+      List.mem_map.mpr ⟨_, List.mem_append_left _ hcq, rfl⟩
+    exact hnd3 _ h1 _ h2
+  have hoth : ∀ i c0, i ≠ j → q.slots[i]? = some (some c0) → c0.key ≠ c.key := by
+    intro i c0 hij hi
+    rw [List.map_append, List.nodup_append] at hnd2
+    exact heldSlots_distinct q.prio q.slots i j c0 c hnd2.1 hi hjs hij
+  have hqidx : q.index < q.slots.length := hidx q (by rw [hsess]; simp)
+  have hkept : Kept c.key f (c.key ∈ s.files) s := ⟨⟨f, hf, rfl, rfl, rfl⟩, Iff.rfl⟩
+  -- first poll of the FDT session
+  unfold read
+  have hw0 : Wf (emit s (.opRead now)) (heldOf s) := Wf.emit _ hw
+  have hk0 : Kept c.key f (c.key ∈ s.files) (emit s (.opRead now)) := hkept.same rfl rfl
+  have hk1 := Kept.runFdt runFuel (emit s (.opRead now)) now hk0
+  have hw1 := runFdt_inv Wf.closed runFuel (emit s (.opRead now)) now _ hw0 hquiet
+  have hs1 := runFdt_sessions runFuel (emit s (.opRead now)) now
+  have ho1 := runFdt_out runFuel (emit s (.opRead now)) now
+  generalize hr1 : runFdt runFuel (emit s (.opRead now)) now = r1 at hk1 hw1 hs1 ho1
+  obtain ⟨s1, o1⟩ := r1
+  simp only [emit_sessions] at hk1 hw1 hs1 ho1
+  cases o1 with
+  | hang => exact ⟨by simp, fun _ _ _ _ e => (by cases e)⟩
+  | fdt a b c' => exact ⟨by simp, fun _ _ _ _ e => (by cases e)⟩
+  | pkt a b c' d => exact absurd rfl (ho1 a b c' d)
+  | none =>
+    simp only []
+    have hq1 := runFdt_none runFuel (emit s (.opRead now)) now s1 hr1
+    have hw1q : Wf { s1 with quiet := true } (heldOf s) := Wf.enterFiles now hw1.1 hq1
+    have hk1q : Kept c.key f (c.key ∈ s.files) { s1 with quiet := true } := hk1.same rfl rfl
+    have hSsess : ({ s1 with quiet := true } : State).sessions = pre ++ q :: post := by
+      show s1.sessions = _; rw [hs1, hsess]
+    have hSq : ({ s1 with quiet := true } : State).quiet = true := rfl
+    generalize ({ s1 with quiet := true } : State) = S at hw1q hk1q hSsess hSq ⊢
+    unfold readMid
+    simp only []
+    rw [hSsess]
+    have hdue := readQueues_due htr c j rfl now hg hs hlt q post ticks hqidx hjs hoth pre S hk1q hpre
+    have hwq2 := readQueues_inv Wf.closed (pre ++ q :: post) S now ticks []
+      (by simpa [heldOf, hsess] using hw1q) hSq
+    generalize readQueues S (pre ++ q :: post) now ticks = r2 at hdue hwq2
+    obtain ⟨s2, qs, o2⟩ := r2
+    simp only [List.append_nil] at hdue hwq2 ⊢
+    cases o2 with
+    | hang => exact ⟨by simp, fun _ _ _ _ e => (by cases e)⟩
+    | fdt a b c' => exact ⟨by simp, fun _ _ _ _ e => (by cases e)⟩
+    | pkt a b c' d => exact ⟨by simp, fun p t i b' e => (by cases e; exact hdue.1 a b c' d rfl)⟩
+    | none =>
+      simp only []
+      have hfq := hdue.2 rfl
+      have hw2 : Wf { s2 with sessions := qs, quiet := false } (held qs) := Wf.leaveFiles qs hwq2.1
+      have hsess2 : ({ s2 with sessions := qs, quiet := false } : State).fdtSess = none := hwq2.1.quiet hwq2.2
+      unfold readTail
+      have e : runFuel = 3 + 1 := rfl
+      obtain ⟨k', id, i', he⟩ := runFdt_emits_pending 3 now hw2 hsess2 hfq
+      rw [e]
+      generalize runFdt (3 + 1) ({ s2 with sessions := qs, quiet := false } : State) now = r3 at he
+      obtain ⟨s3, o3⟩ := r3
+      simp only [] at he
+      subst he
+      exact ⟨by simp, fun _ _ _ _ e => (by cases e)⟩
+
+/-- in a configuration sorted by priority (a `BTreeMap`) the queues visited up to `q` have priority ≤ `q.prio` -/
+theorem prio_le_of_sorted (cfg : Cfg) (tbl : List Nat) (ops : List Op) (pre post : List QSess) (q : QSess)
+    (hsorted : (cfg.queues.map (fun x => x.1)).Pairwise (fun a b => a < b))
+    (hsess : (run (init cfg tbl) ops).sessions = pre ++ q :: post) :
+    ∀ p ∈ (pre ++ [q]).map (fun x => x.prio), p ≤ q.prio := by
+  have hsh := run_shape cfg tbl ops
+  rw [hsess] at hsh
+  have hp : (pre ++ q :: post).map (fun x => x.prio) = cfg.queues.map (fun x => x.1) := by
+    have := congrArg (List.map (fun x : Nat × Nat => x.1)) hsh
+    simp only [shape, List.map_map] at this
+    exact this
+  rw [← hp, List.map_append, List.pairwise_append] at hsorted
+  obtain ⟨_, _, h3⟩ := hsorted
+  intro p hp'
+  rw [List.map_append, List.mem_append] at hp'
+  rcases hp' with h | h
+  · exact Nat.le_of_lt (h3 p h q.prio (by simp))
+  · simp at h; omega
+
 end Flute.Sched
